@@ -8,6 +8,7 @@ import (
 	"fmt"
 	"io"
 	"net/http"
+	"net/http/httptest"
 	"strings"
 	"testing"
 	"time"
@@ -52,6 +53,8 @@ type c08Step struct {
 	Session int `json:"session,omitempty"`
 	// emit: the k-th read from the xmlenc random source during this emission fails (0: none; a transient entropy fault)
 	RandFailAt int `json:"rand_read_fails_at,omitempty"`
+	// emit: the application drives the IdpAuthnRequest API itself and, when writing the response fails, tries again on the SAME request object
+	Retry bool `json:"retry_on_same_request,omitempty"`
 	// rekey: the SP rolls its key over (rsa1 <-> rsa3) and re-registers the same layout with the other certificate
 	// inner: foreign-IdP response, once in plaintext and once encrypted, with one defect inside
 	Defect   string `json:"defect,omitempty"`
@@ -118,6 +121,8 @@ var c08Layouts = []c08NamedLayout{
 	{"enc-empty-then-nouse-valid", []c08KD{c08kd("encryption", "empty"), c08kd("", "key:rsa1")}},
 	{"nouse-empty-then-nouse-valid", []c08KD{c08kd("", "empty"), c08kd("", "key:rsa1")}},
 	{"enc-two-certs-valid-first", []c08KD{c08kd("encryption", "key:rsa1", "garbage-der")}},
+	{"enc-chain-leaf-then-issuer", []c08KD{c08kd("encryption", "key:rsa1", "key:rsa2")}}, // X509Data carrying a chain: the leaf is the key, the issuer (another party's key!) is not
+	{"nouse-chain-leaf-then-issuer", []c08KD{c08kd("", "key:rsa1", "key:rsa2")}},
 	{"enc-two-certs-garbage-first", []c08KD{c08kd("encryption", "garbage-der", "key:rsa1")}},
 	{"signing-garbage-then-enc-valid", []c08KD{c08kd("signing", "garbage-der"), c08kd("encryption", "key:rsa1")}},
 }
@@ -166,6 +171,7 @@ func genEncrypt(g *Rng, tier string) *Plan {
 		st := c08Step{Kind: "emit", Session: g.PickW(5, 3, 2)}
 		if g.Bool(0.12) {
 			st.RandFailAt = 1 + g.Intn(5)
+			st.Retry = g.Bool(0.5)
 		}
 		p.Steps = append(p.Steps, mustJSON(st))
 		if i > 0 && g.Bool(0.2) {
@@ -663,7 +669,37 @@ func c08Emit(w *c08World, res *Result, si int, st c08Step) bool {
 	w.idp.AssertionMaker = nil
 	w.rec.drawn, w.rec.on = nil, true
 	w.rec.reads, w.rec.failAt, w.rec.failed = 0, st.RandFailAt, false
-	rep := deliver(http.HandlerFunc(w.idp.ServeSSO), "GET", hr.URL.String(), "", "", nil)
+	var rep *reply
+	if st.Retry {
+		// NewIdpAuthnRequest / Validate / MakeAssertion / WriteResponse by hand; a failed WriteResponse is retried once
+		rep = &reply{Header: http.Header{}}
+		rep.Panic = guard(func() {
+			req, err := saml.NewIdpAuthnRequest(w.idp, redirectRequest(hr.URL))
+			if err == nil {
+				err = req.Validate()
+			}
+			if err == nil {
+				err = saml.DefaultAssertionMaker{}.MakeAssertion(req, sess)
+			}
+			if err != nil {
+				rep.Code = 400
+				return
+			}
+			for attempt := 0; attempt < 2; attempt++ {
+				rec := httptest.NewRecorder()
+				if err = req.WriteResponse(rec); err == nil {
+					rep.Code, rep.Body = 200, rec.Body.String()
+					if attempt > 0 {
+						res.probe("response-written-on-retry")
+					}
+					return
+				}
+			}
+			rep.Code = 500
+		})
+	} else {
+		rep = deliver(http.HandlerFunc(w.idp.ServeSSO), "GET", hr.URL.String(), "", "", nil)
+	}
 	w.rec.on = false
 	if w.rec.failed {
 		res.fire("entropy-read-error")
